@@ -172,6 +172,10 @@ func vScenarioC10(rc *runCtx) {
 		// (only for downloads stopped by the client, and only the client is timed then: the sending server
 		// rightly counts a stalled link as a slow one and takes its time)
 		stallDuring = !cfg.upload && tp.Bool("c10.priorstall", 400)
+		if stallDuring && tp.Bool("c10.priorstall2", 700) {
+			// mostly after an earlier question that was answered while data was flowing
+			priorCycles = 2
+		}
 		if priorEarly = cfg.upload && tp.Bool("c10.priorearly", 300); priorEarly {
 			// the question opens while the sender is still finding its chunk size (doubling from 10 KiB as long as
 			// acknowledgements come back fast), several chunks on their way: a long first file that does not compress
@@ -256,8 +260,11 @@ func vScenarioC10(rc *runCtx) {
 						// is still waiting when it is answered
 						rc.fault("link-stalled-while-question-open")
 						for _, l := range x.down {
-							l.StallUntil = w.Now() + priorLen + time.Second
+							l.StallUntil = w.Now() + 300*time.Millisecond + priorLen + time.Second
 						}
+						// (the stall begins a moment before the key: what was in flight has been taken in and the read
+						// for the next chunk is waiting when the question opens)
+						verifsim.Sleep(300 * time.Millisecond)
 					}
 					x.kbd.Write([]byte{0x03})
 					upWatch = true
